@@ -6,8 +6,10 @@
 #include "common.hpp"
 #include "engines.hpp"
 #include "mcmodel.hpp"
+#include "mpienv.hpp"
 
 #include "hep/mc.hpp"
+#include "hep/mc-mpi.hpp"
 #include "hep/mc/generator_helper.hpp"
 
 #include <cmath>
@@ -48,6 +50,14 @@ struct pattern_mc_fn
         if (touch_weight) (void) p.weight();
         return inner.value();
     }
+};
+
+// records the generator of the checkpoint at every callback invocation (MPI form)
+template <typename E>
+struct gen_recorder
+{
+    std::vector<E>* gens;
+    template <typename C> bool operator()(MPI_Comm, C const& c) const { gens->push_back(c.generator()); return true; }
 };
 
 template <typename E> static std::uint64_t draws_of() { return vf::counting<E>::draws(); }
@@ -237,6 +247,37 @@ static void product(report& r)
                 gens.push_back(chk.generator());
             }
             check(base + " multi_channel stored" + cfg, d + 1, gens);
+        }
+        // the same for the MPI integrators under the shim: on every rank, after every iteration
+        if (d == 1 && pat == 1 && r.want(base + " mpi stored"))
+        {
+            std::vector<sz> const list = {7, 0, 5, 2};
+            for (int kind = 0; kind != 3; ++kind)
+            {
+                int const world = 3;
+                std::vector<std::vector<E>> gens(world);
+                vf::mpi_env env(world);
+                vf::pl_map<T> map; map.split = {T(0.25), T(0.5), T(0.75)}; map.dims = 1;
+                auto out = env.run([&](int rank) {
+                    gens[rank].clear();
+                    gen_recorder<E> rec{&gens[rank]};
+                    if (kind == 0) (void) hep::mpi_plain(MPI_COMM_WORLD, hep::make_integrand<T>(pattern_fn<T>{pat}, 1), list, hep::make_plain_chkpt<T, E>(g0), rec);
+                    else if (kind == 1) (void) hep::mpi_vegas(MPI_COMM_WORLD, hep::make_integrand<T>(pattern_fn<T>{pat}, 1), list, hep::make_vegas_chkpt<T, E>(4, T(0.75), g0), rec);
+                    else (void) hep::mpi_multi_channel(MPI_COMM_WORLD, hep::make_multi_channel_integrand<T>(pattern_mc_fn<T>{pattern_fn<T>{pat}, false}, 1, map, 1, 3), list,
+                        hep::make_multi_channel_chkpt<T, E>(std::vector<T>{T(0), T(1), T(3)}, T(0.0078125), T(0.5), g0), rec);
+                });
+                std::string const id = base + " mpi stored kind=" + std::to_string(kind);
+                r.eval();
+                if (!out.ok) { r.violate("mpi-run-failed", id, id + ": " + out.what); continue; }
+                for (int k = 0; k != world; ++k)
+                {
+                    E ref; ref.seed(2024);
+                    bool ok = gens[k].size() == list.size();
+                    for (sz i = 0; ok && i != list.size(); ++i) { ref.discard(list[i] * (kind == 2 ? 2 : 1) * usage); ok = gens[k][i] == ref; }
+                    if (!ok) { r.violate("stored-generator-not-advanced-by-prediction", id, id + ": rank " + std::to_string(k) + " stores a generator that differs from the initial one advanced by calls x numbers x usage"); break; }
+                }
+                r.distinct(vf::hash_str(id));
+            }
         }
     }
 }
